@@ -12,6 +12,7 @@ import (
 	"go/types"
 	"sort"
 	"strings"
+	"sync"
 
 	"golang.org/x/tools/go/ssa"
 )
@@ -20,10 +21,14 @@ type State struct {
 	reach  Term
 	locals map[*ssa.Alloc]Term
 	heaps  map[string]Term
+	hyps   map[int]bool // quantified hypotheses in scope on the paths leading here
 }
 
 func (s *State) clone() *State {
-	n := &State{reach: s.reach, locals: make(map[*ssa.Alloc]Term, len(s.locals)), heaps: make(map[string]Term, len(s.heaps))}
+	n := &State{reach: s.reach, locals: make(map[*ssa.Alloc]Term, len(s.locals)), heaps: make(map[string]Term, len(s.heaps)), hyps: make(map[int]bool, len(s.hyps))}
+	for k := range s.hyps {
+		n.hyps[k] = true
+	}
 	for k, v := range s.locals {
 		n.locals[k] = v
 	}
@@ -48,14 +53,14 @@ const (
 	LVLocal LVKind = iota
 	LVField
 	LVCell
-	LVElem  // element of a slice value (read-only)
+	LVElem // element of a slice value (read-only)
 	LVGlobal
 )
 
 type pathStep struct {
-	field int          // >=0: struct field index
-	idx   Term         // else: array index
-	ty    types.Type   // type of the container being stepped into
+	field int        // >=0: struct field index
+	idx   Term       // else: array index
+	ty    types.Type // type of the container being stepped into
 }
 
 type LValue struct {
@@ -81,22 +86,46 @@ type Val struct {
 }
 
 type Obligation struct {
-	Name   string
-	Kind   string
-	Tags   []string
-	Func   string
-	mark   int
-	guard  Term
-	ground *Term   // ground goal
-	expr   *Expr   // or a spec goal
-	env    *Env
-	Src    string
-	Pos    string
-	mustSat bool // cover obligations
+	Name     string
+	Kind     string
+	Tags     []string
+	Func     string
+	mark     int
+	guard    Term
+	ground   *Term // ground goal
+	expr     *Expr // or a spec goal
+	env      *Env
+	Src      string
+	Pos      string
+	mustSat  bool // cover obligations
 	extraHyp []qhyp
+	hyps     map[int]bool
+}
+
+// addQhyp registers a quantified hypothesis in the scope of state st.
+func (x *Exec) addQhyp(st *State, q qhyp) {
+	q.id = len(x.qhyps)
+	x.qhyps = append(x.qhyps, q)
+	if st != nil {
+		if st.hyps == nil {
+			st.hyps = map[int]bool{}
+		}
+		st.hyps[q.id] = true
+	}
+}
+
+func scopeOf(st *State) map[int]bool {
+	m := map[int]bool{}
+	if st != nil {
+		for k := range st.hyps {
+			m[k] = true
+		}
+	}
+	return m
 }
 
 type qhyp struct {
+	id    int
 	mark  int
 	guard Term
 	expr  *Expr
@@ -105,38 +134,40 @@ type qhyp struct {
 }
 
 type Exec struct {
-	prog  *ssa.Program
-	pkg   *ssa.Package
-	fn    *ssa.Function
-	b     *Builder
-	tm    *TypeMap
-	db    *ContractDB
-	ld    *Loader
-	con   *Contract
-	cands *Cands
-	cur   *State
-	entry *State
-	obls  []*Obligation
-	qhyps []qhyp
-	initHeaps map[string]Term
-	counters  map[string]int
-	assumptions map[string]bool // listed in evidence
-	params  map[string]TV
-	results []resultVar
-	unsupported []string
-	fnKey   string
-	ghostLocals map[string]TV
-	uninterpApps map[string][][]TV
-	abstracted bool
-	checked bool // arith checked
-	tagCounter int
-	typeTags map[string]int
-	curFrame *Frame
-	usesSz bool
+	prog           *ssa.Program
+	pkg            *ssa.Package
+	fn             *ssa.Function
+	b              *Builder
+	tm             *TypeMap
+	db             *ContractDB
+	ld             *Loader
+	con            *Contract
+	cands          *Cands
+	cur            *State
+	entry          *State
+	obls           []*Obligation
+	qhyps          []qhyp
+	initHeaps      map[string]Term
+	counters       map[string]int
+	assumptions    map[string]bool // listed in evidence
+	params         map[string]TV
+	results        []resultVar
+	unsupported    []string
+	fnKey          string
+	ghostLocals    map[string]TV
+	uninterpApps   map[string][][]TV
+	abstracted     bool
+	checked        bool // arith checked
+	tagCounter     int
+	typeTags       map[string]int
+	curFrame       *Frame
+	usesSz         bool
+	mu             sync.Mutex
+	oblNames       map[string]int
 	replayStrTerms []string
-	inRecover bool
-	strPrefixOf map[string]Term
-	modelExtra []string
+	inRecover      bool
+	strPrefixOf    map[string]Term
+	modelExtra     []string
 }
 
 type resultVar struct {
@@ -145,18 +176,18 @@ type resultVar struct {
 }
 
 type Frame struct {
-	fn      *ssa.Function
-	regs    map[ssa.Value]Val
-	prefix  string
-	depth   int
-	top     bool
-	exits   []exitState
-	loops   map[*ssa.BasicBlock]*loopInfo
-	out     map[*ssa.BasicBlock]*State
-	edge    map[[2]int]Term
-	parent  *Frame
+	fn       *ssa.Function
+	regs     map[ssa.Value]Val
+	prefix   string
+	depth    int
+	top      bool
+	exits    []exitState
+	loops    map[*ssa.BasicBlock]*loopInfo
+	out      map[*ssa.BasicBlock]*State
+	edge     map[[2]int]Term
+	parent   *Frame
 	deferred []deferRec
-	panics  []panicState
+	panics   []panicState
 }
 
 type deferRec struct {
@@ -225,9 +256,20 @@ func (x *Exec) newEnv(vars map[string]TV, st, old *State) *Env {
 // assumeSpec adds a spec-level hypothesis. Quantifier-free hypotheses are asserted at once;
 // those containing hypothesis-side quantifiers are kept and instantiated per obligation.
 func (x *Exec) assumeSpec(guard Term, e *Expr, env *Env, src string) {
+	x.assumeSpecIn(x.cur, guard, e, env, src)
+}
+
+func (x *Exec) assumeSpecIn(target *State, guard Term, e *Expr, env *Env, src string) {
 	if containsQuant(e, x.db) {
-		x.qhyps = append(x.qhyps, qhyp{mark: x.b.Mark(), guard: guard, expr: e, env: env, src: src})
-		// still run a collecting pass so that its ground terms become candidates
+		// quantifier-free conjuncts are asserted at once; only the quantified ones are kept for
+		// per-obligation instantiation
+		for _, c := range conjuncts(e, env, 0) {
+			if containsQuant(c.expr, x.db) {
+				x.addQhyp(target, qhyp{mark: x.b.Mark(), guard: guard, expr: c.expr, env: c.env, src: src})
+			} else {
+				x.assumeSpecIn(target, guard, c.expr, c.env, src)
+			}
+		}
 		return
 	}
 	var facts []Term
@@ -250,8 +292,8 @@ func (x *Exec) obligeGround(f *Frame, kind string, tags []string, guard, goal Te
 	k := x.count(f.prefix + kind)
 	g := goal
 	ob := &Obligation{Name: fmt.Sprintf("%s/%s%s#%d", x.fnKeyShort(), f.prefix, kind, k), Kind: kind, Tags: tags, Func: x.fnKey,
-		mark: x.b.Mark(), guard: guard, ground: &g, Src: src, Pos: x.posStr(pos)}
-	x.obls = append(x.obls, ob)
+		mark: x.b.Mark(), guard: guard, ground: &g, Src: src, Pos: x.posStr(pos), hyps: scopeOf(x.cur)}
+	x.addObl(ob)
 }
 
 func (x *Exec) obligeSpec(f *Frame, kind string, cl Clause, guard Term, env *Env, label string) {
@@ -264,7 +306,20 @@ func (x *Exec) obligeSpec(f *Frame, kind string, cl Clause, guard Term, env *Env
 		}
 	}
 	ob := &Obligation{Name: fmt.Sprintf("%s/%s%s", x.fnKeyShort(), f.prefix, name), Kind: kind, Tags: cl.Tags, Func: x.fnKey,
-		mark: x.b.Mark(), guard: guard, expr: cl.Expr, env: env, Src: cl.Src, Pos: fmt.Sprintf("%s:%d", shortPath(cl.File), cl.Line)}
+		mark: x.b.Mark(), guard: guard, expr: cl.Expr, env: env, Src: cl.Src, Pos: fmt.Sprintf("%s:%d", shortPath(cl.File), cl.Line), hyps: scopeOf(env.st)}
+	x.addObl(ob)
+}
+
+// addObl keeps obligation names unique (duplicated tail blocks produce the same base name once per path).
+func (x *Exec) addObl(ob *Obligation) {
+	if x.oblNames == nil {
+		x.oblNames = map[string]int{}
+	}
+	n := x.oblNames[ob.Name]
+	x.oblNames[ob.Name] = n + 1
+	if n > 0 {
+		ob.Name = fmt.Sprintf("%s~%d", ob.Name, n)
+	}
 	x.obls = append(x.obls, ob)
 }
 
@@ -586,14 +641,18 @@ func (x *Exec) parseSpecTypeIn(text string, pkgPath string) specType {
 	if strings.HasPrefix(text, "sort:") {
 		return specType{Sort(text[5:]), nil}
 	}
-	if t, ok := x.ld.typeCache[pkgPath+"|"+text]; ok {
-		return specType{x.tm.SortOf(t), t}
+	x.ld.mu.Lock()
+	t, ok := x.ld.typeCache[pkgPath+"|"+text]
+	if !ok {
+		t = x.ld.evalType(pkgPath, text)
+		if t != nil {
+			x.ld.typeCache[pkgPath+"|"+text] = t
+		}
 	}
-	t := x.ld.evalType(pkgPath, text)
+	x.ld.mu.Unlock()
 	if t == nil {
 		sfail("cannot resolve type %q in package %s", text, pkgPath)
 	}
-	x.ld.typeCache[pkgPath+"|"+text] = t
 	return specType{x.tm.SortOf(t), t}
 }
 
@@ -679,6 +738,7 @@ func VerifyFunction(ld *Loader, db *ContractDB, fn *ssa.Function, con *Contract)
 		fnKey: relKey(fn), uninterpApps: map[string][][]TV{}, typeTags: map[string]int{}}
 	x.tm = &TypeMap{b: x.b}
 	x.cands.mark = x.b.Mark
+	x.cands.symf = func(arr string, out map[string]bool) { x.symbolsOf(arr, out, 3) }
 	x.checked = con.Arith == "checked"
 	defer func() {
 		if r := recover(); r != nil {
@@ -750,7 +810,7 @@ func VerifyFunction(ld *Loader, db *ContractDB, fn *ssa.Function, con *Contract)
 	}
 	// cover: the preconditions are satisfiable
 	tt := tTrue
-	x.obls = append(x.obls, &Obligation{Name: x.fnKeyShort() + "/cover", Kind: "cover", Tags: con.Tags, Func: x.fnKey, mark: x.b.Mark(), guard: tTrue, ground: &tt, mustSat: true, Src: "preconditions satisfiable"})
+	x.obls = append(x.obls, &Obligation{Name: x.fnKeyShort() + "/cover", Kind: "cover", Tags: con.Tags, Func: x.fnKey, mark: x.b.Mark(), guard: tTrue, ground: &tt, mustSat: true, Src: "preconditions satisfiable", hyps: scopeOf(x.entryScope())})
 
 	x.runFrame(f)
 	x.topLevelPanics(f)
@@ -767,7 +827,7 @@ func VerifyFunction(ld *Loader, db *ContractDB, fn *ssa.Function, con *Contract)
 			x.b.Comment("exit at " + x.posStr(ex.pos))
 			lbl := ""
 			nm := "post"
-			ob := &Obligation{Kind: "post", Tags: c.Tags, Func: x.fnKey, mark: x.b.Mark(), guard: ex.st.reach, expr: c.Expr, env: eenv, Src: c.Src,
+			ob := &Obligation{Kind: "post", Tags: c.Tags, Func: x.fnKey, mark: x.b.Mark(), guard: ex.st.reach, expr: c.Expr, env: eenv, Src: c.Src, hyps: scopeOf(ex.st),
 				Pos: fmt.Sprintf("%s:%d (exit %s)", shortPath(c.File), c.Line, x.posStr(ex.pos))}
 			if c.Label != "" {
 				lbl = c.Label
@@ -792,6 +852,15 @@ func VerifyFunction(ld *Loader, db *ContractDB, fn *ssa.Function, con *Contract)
 // recover() closure it becomes a normal exit through the Recover block; otherwise the contract's
 // xensures must hold there (no xensures/panics_if: the panic must be unreachable).
 func (x *Exec) topLevelPanics(f *Frame) {
+	if len(f.panics) > 1 {
+		// all panic exits share one continuation: merge them
+		var ins []inEdge
+		for _, ps := range f.panics {
+			ins = append(ins, inEdge{ps.st, ps.st.reach})
+		}
+		m := x.mergeStates(ins, "panics")
+		f.panics = []panicState{{st: m, pos: f.panics[0].pos, what: fmt.Sprintf("%s (and %d more panic sites)", f.panics[0].what, len(f.panics)-1)}}
+	}
 	for len(f.panics) > 0 {
 		ps := f.panics[0]
 		f.panics = f.panics[1:]
@@ -824,6 +893,8 @@ func (x *Exec) topLevelPanics(f *Frame) {
 		x.frameObligations(f, exitState{st: ps.st, pos: ps.pos})
 	}
 }
+
+func (x *Exec) entryScope() *State { return x.cur }
 
 func (x *Exec) paramVars() map[string]TV {
 	vars := map[string]TV{}
@@ -877,7 +948,7 @@ func (x *Exec) frameObligations(f *Frame, ex exitState) {
 		k := x.count("frame")
 		g := goal
 		x.obls = append(x.obls, &Obligation{Name: fmt.Sprintf("%s/frame:%s#%d", x.fnKeyShort(), n, k), Kind: "frame", Tags: x.con.Tags, Func: x.fnKey,
-			mark: x.b.Mark(), guard: ex.st.reach, ground: &g, Src: "heap " + n + " unchanged outside modifies", Pos: x.posStr(ex.pos)})
+			mark: x.b.Mark(), guard: ex.st.reach, ground: &g, Src: "heap " + n + " unchanged outside modifies", Pos: x.posStr(ex.pos), hyps: scopeOf(ex.st)})
 	}
 }
 
@@ -902,7 +973,9 @@ func (x *Exec) resolveModItem(m *Expr, env *Env, ms *modSet) {
 		_, index, _ := lookupField(base.Ty, x.pkgTypes(), m.Name)
 		if index == nil {
 			if g, hn := x.ghostLookup(base.Ty, m.Name); g != nil {
-				tv, _ := x.ghostField(env, base, m.Name)
+				ne := *env
+				ne.noShare = true
+				tv, _ := x.ghostField(&ne, base, m.Name)
 				// the selected object is the second argument of the select term
 				parts := splitSexp(tv.T.S)
 				ms.objs[hn] = append(ms.objs[hn], Term{parts[2], SInt})
@@ -1095,6 +1168,25 @@ func (x *Exec) rpo(f *Frame) []*ssa.BasicBlock {
 	return order
 }
 
+// tailDuplicable: a short block without calls whose successors are all back edges (or none).
+func (x *Exec) tailDuplicable(f *Frame, b *ssa.BasicBlock) bool {
+	if f.loops[b] != nil || len(b.Instrs) > 24 {
+		return false
+	}
+	for _, s := range b.Succs {
+		if !s.Dominates(b) {
+			return false
+		}
+	}
+	for _, ins := range b.Instrs {
+		switch ins.(type) {
+		case *ssa.Call, *ssa.Defer, *ssa.Go, *ssa.RunDefers:
+			return false
+		}
+	}
+	return true
+}
+
 type inEdge struct {
 	st   *State
 	cond Term // reach ∧ edge condition
@@ -1110,7 +1202,12 @@ func (x *Exec) mergeStates(ins []inEdge, hint string) *State {
 	for _, in := range ins {
 		rs = append(rs, in.cond)
 	}
-	st := &State{locals: map[*ssa.Alloc]Term{}, heaps: map[string]Term{}}
+	st := &State{locals: map[*ssa.Alloc]Term{}, heaps: map[string]Term{}, hyps: map[int]bool{}}
+	for _, in := range ins {
+		for k := range in.st.hyps {
+			st.hyps[k] = true
+		}
+	}
 	st.reach = x.b.Def("reach_"+hint, Or(rs...))
 	// locals
 	lkeys := map[*ssa.Alloc]bool{}
@@ -1204,6 +1301,16 @@ func (x *Exec) runFrame(f *Frame) {
 			if len(ins) == 0 {
 				continue
 			}
+			if len(ins) > 1 && x.tailDuplicable(f, b) {
+				// small join block that only leads back to a loop header or out of the function: run it
+				// once per incoming path, so that each path keeps its own hypotheses
+				for k, in := range ins {
+					x.cur = in.st.clone()
+					x.cur.reach = x.b.Def(fmt.Sprintf("reach_b%d_p%d", b.Index, k), in.cond)
+					x.execBlock(f, b)
+				}
+				continue
+			}
 			st = x.mergeStates(ins, fmt.Sprintf("b%d", b.Index))
 		}
 		x.cur = st
@@ -1283,7 +1390,7 @@ func (x *Exec) cutLoop(f *Frame, li *loopInfo) {
 		}
 		fr := loopFrame{heap: h, pre: pre.Heap(x, h, mod.heaps[h]), allocPre: pre.Alloc(x), excl: lms.objs[h]}
 		li.frames = append(li.frames, fr)
-		x.qhyps = append(x.qhyps, qhyp{mark: x.b.Mark(), guard: st.reach, expr: loopFrameExpr, env: x.loopFrameEnv(fr, st.heaps[h]), src: "loop frame of " + h})
+		x.addQhyp(st, qhyp{mark: x.b.Mark(), guard: st.reach, expr: loopFrameExpr, env: x.loopFrameEnv(fr, st.heaps[h]), src: "loop frame of " + h})
 	}
 }
 
